@@ -182,6 +182,44 @@ Example C02_ex_string_engine :
   unescape R_EXPR_STRING_ESCAPE (U "a\00005c'b\00005c\00005cc\00005cd\00005c") = Some (U "a'b\00005cc\00005cd\00005c").
 Proof. vm_compute. repeat split; reflexivity. Qed.
 
+(* ---- the bracketed variable name  ^\s*\[\s*((?:\\\]|[^\]])+)\s*\] .  After the leading white space (p characters) and the
+   bracket: skip the white-space run; if something other than ] follows, the name starts there and runs to the closing
+   bracket found by the scanner [scanv] (a bare ] closes; backslash + ] is skipped as a pair when the text after it still
+   closes, otherwise the name closes at THAT bracket; every other character, white space included, is skipped -- so the
+   name keeps its trailing white space and the final \s* never reads anything); if the white-space run is followed
+   directly by ], the name is the LAST character of the run ( "[ ]" has the name " " ) and an empty run gives no match.
+   [varex_tok p r] = (start of the name, position of the closing bracket), as positions in the text. *)
+Theorem C02_variable_ex_engine : forall s,
+  re_match UC R_EXPR_VARIABLE_EX s =
+  match varex_tok (fst (span_p is_space_u s)) (snd (span_p is_space_u s)) with
+  | Some (a, e) => MYes (S e) [(1%nat, (a, e))]
+  | None => MNo
+  end.
+Proof. exact variable_ex_answer. Qed.
+Print Assumptions C02_variable_ex_engine.
+Theorem C02_variable_ex_no_close : forall rest pos, scanv pos rest = None <-> has_quote 93 rest = false.
+Proof. exact scanv_none. Qed.
+Print Assumptions C02_variable_ex_no_close.
+Theorem C02_variable_ex_close_is_a_bracket : forall rest pos e,
+  scanv pos rest = Some e -> pos <= e /\ nth_error rest (e - pos) = Some 93%N.
+Proof. exact scanv_sound. Qed.
+Print Assumptions C02_variable_ex_close_is_a_bracket.
+Theorem C02_variable_ex_unescape : forall t, unescape R_EXPR_VARIABLE_EX_ESCAPE t = Some (unescape_direct 93 t).
+Proof. exact variable_ex_unescape_answer. Qed.
+Print Assumptions C02_variable_ex_unescape.
+Example C02_ex_variable_ex_engine :
+  varex_tok 0 (U "[ ]") = Some (1%nat, 2%nat) /\ varex_tok 0 (U "[]") = None /\ varex_tok 0 (U "[]]") = None /\
+  varex_tok 1 (U "[ a b ]") = Some (3%nat, 7%nat) /\
+  varex_tok 0 (U "[a\00005c]") = Some (1%nat, 3%nat) /\ varex_tok 0 (U "[a\00005c]b]") = Some (1%nat, 5%nat) /\
+  varex_tok 0 (U "[   ]x]") = Some (3%nat, 4%nat) /\ varex_tok 0 (U "[ a") = None /\ varex_tok 0 (U "a]") = None /\
+  re_match UC R_EXPR_VARIABLE_EX (U " [ a b ]") = MYes 8 [(1%nat, (3%nat, 7%nat))] /\
+  re_match UC R_EXPR_VARIABLE_EX (U "[a\00005c]") = MYes 4 [(1%nat, (1%nat, 3%nat))] /\
+  re_match UC R_EXPR_VARIABLE_EX (U "[a\00005c]b]") = MYes 6 [(1%nat, (1%nat, 5%nat))] /\
+  re_match UC R_EXPR_VARIABLE_EX (U "[ ]") = MYes 3 [(1%nat, (1%nat, 2%nat))] /\
+  re_match UC R_EXPR_VARIABLE_EX (U "[]") = MNo /\
+  unescape R_EXPR_VARIABLE_EX_ESCAPE (U "a\00005c]b\00005cc") = Some (U "a]b\00005cc").
+Proof. vm_compute. repeat split; reflexivity. Qed.
+
 (* the model's recursion fuel (2*|text|+4) always suffices, and no host exception escapes: parse_expression returns a tree
    or a parser error for EVERY text (Proofs/ExprFuel.v; Proofs/Total.v) — so C02_sound covers every accepted text *)
 Theorem C02_parser_fuel_suffices : forall text, parse_expression text <> EFuel.
